@@ -141,7 +141,12 @@ impl World {
         let it: Vec<usize> = self.vals.iter().enumerate().filter(|(_, v)| !v.freed && v.k == k && (need_live_ctx || !v.borrowed) && (!need_live_ctx || (self.ctxs[v.ctx].alive && Some(v.ctx) == self.c0i()))).map(|(i, _)| i).collect();
         if which == 0 { it.last().copied() } else { it.first().copied() }
     }
-    fn before_call(&mut self) { if self.gcmode == 1 { tsrun::gc::verif::arm_collect_at(vec![tsrun::gc::verif::alloc_ordinal() + 1]); } }
+    /// gcmode 1: a collection at the first allocation inside every call; gcmode 10+k: at the k-th allocation inside
+    /// every call (a call that holds an internal borrow across a later allocation meets the collector there)
+    fn before_call(&mut self) {
+        if self.gcmode == 1 { tsrun::gc::verif::arm_collect_at(vec![tsrun::gc::verif::alloc_ordinal() + 1]); }
+        else if self.gcmode >= 10 { tsrun::gc::verif::arm_collect_at(vec![tsrun::gc::verif::alloc_ordinal() + (self.gcmode as u64 - 10)]); }
+    }
 
     unsafe fn res_ok(&mut self, what: &str, r: TsRunResult, must: Option<bool>) -> bool {
         if !r.ok {
